@@ -8,6 +8,7 @@ import (
 	"verifharness/drv/cf"
 	"verifharness/drv/fwd"
 	"verifharness/drv/hb"
+	"verifharness/drv/ts"
 )
 
 func main() {
@@ -24,6 +25,8 @@ func main() {
 		os.Exit(cf.VictimMain(os.Args[2:]))
 	case "cf-recover":
 		os.Exit(cf.RecoverMain(os.Args[2:]))
+	case "ts":
+		os.Exit(ts.Main(os.Args[2:]))
 	case "hb":
 		os.Exit(hb.Main(os.Args[2:]))
 	default:
